@@ -1916,7 +1916,7 @@ class TensorDict(TensorDictBase):
         new_batch_size = torch.Size([i * r for i, r in zip(self.batch_size, repeats)])
 
         def rep(leaf):
-            return leaf.repeat(*repeats, *((1,) * (leaf.ndim - self.ndim)))
+            return leaf.repeat((*repeats, *((1,) * (leaf.ndim - self.ndim))))
 
         return self._fast_apply(
             rep,
